@@ -16,7 +16,7 @@ use std::path::{Path, PathBuf};
 
 pub const LEVEL: &str = "exploration";
 pub const EXHAUSTIVE: bool = false;
-pub const RULE: &str = "generated: structured call sequences (proptest) of 5..60 ops over all 33 exported functions - up to 3 configs built through every setter incl. valid and invalid layout / data paths, up to 3 contexts, up to 16 live suggestions and 32 live strings; ops: key (any published code, modifier, selection), backspace, commit(i<len), finish, update-engine while idle, ongoing, complete read-out of a suggestion through every getter, re-read of an older suggestion, string_free / string_free(NULL) / suggestion_free / context_free / config_free in any order - encoded in the target's byte code and executed once each by the AddressSanitizer + LeakSanitizer build (1 sequence in 16 may load the bundled dictionary in some of its configs); thorough adds a coverage-guided libFuzzer campaign (16 jobs) from that corpus. Oracle (in-target): ASan / LSan reports, every returned char* is NUL-terminated valid UTF-8 equal to what the Rust API reports for the same object and index, a suggestion's strings are unchanged when re-read after later calls on its context and after the context is freed, string_free(NULL) is a no-op. Non-trivial: the sequence leaves >= 1 suggestion to be re-read after its context was freed, or re-reads an older suggestion after a later call; distinct by byte code.";
+pub const RULE: &str = "generated: structured call sequences (proptest) of 5..60 ops over all 33 exported functions - up to 3 configs built through every setter incl. valid and invalid layout / data paths, up to 3 contexts, up to 16 live suggestions and 32 live strings; ops: key (any published code, modifier, selection), backspace, commit(i<len), finish, update-engine while idle, ongoing, complete read-out of a suggestion through every getter, re-read of an older suggestion, string_free / string_free(NULL) / suggestion_free / context_free / config_free in any order - encoded in the target's byte code and executed once each by the AddressSanitizer + LeakSanitizer build (1 sequence in 16 may load the bundled dictionary in some of its configs); thorough adds a coverage-guided libFuzzer campaign (16 jobs) from that corpus. Oracle (in-target): ASan / LSan reports, every returned char* is NUL-terminated valid UTF-8 equal to what the Rust API reports for the same object and index, a suggestion's strings are unchanged when re-read after later calls on its context and after the context is freed, string_free(NULL) is a no-op. Non-trivial: the sequence leaves >= 1 suggestion to be re-read after its context was freed, or re-reads an older suggestion after a later call; distinct by byte code. The byte code has a burst op (the same key 2..97 times, every suggestion on the way read out completely and freed, the last one kept) so that candidates and pre-edit texts of several hundred bytes occur.";
 pub const ASSUMPTIONS: &[&str] = &[
     "AddressSanitizer / LeakSanitizer detect invalid accesses and leaks; a Rust panic inside an extern \"C\" function aborts and is reported by libFuzzer",
     "the decoder never violates the caller's contract (double free, dangling handle, index >= length)",
